@@ -446,14 +446,14 @@ C11d(p, t, q) ==
 (***************************************************************************)
 (* C18 - deletion waits for cleanup                                        *)
 (***************************************************************************)
-CleanupCompleteRollout(s) == Residue(s) \subseteq {"batchRelease"} /\ (s.br.exists => s.br.deleting) /\ s.ghost.origOk
+CleanupCompleteRollout(s) == Residue(s) \subseteq {"batchRelease"} /\ (s.br.exists => s.br.deleting) /\ (s.tr.used \/ s.ghost.origOk)
   \* (a BatchRelease that is already deleting and released the workload is tolerated below)
 
 C18a_A(p, t, q) ==
   (t.base = "ro" /\ p.ro.exists /\ p.ro.finalizer /\ (~q.ro.exists \/ ~q.ro.finalizer))
 C18a(p, t, q) ==
   C18a_A(p, t, q)
-  => (Residue(p) = {} /\ p.ghost.origOk)
+  => (Residue(p) = {} /\ (p.tr.used \/ p.ghost.origOk))   \* routes of a stand-alone TrafficRouting object: C18tr
 
 C18br_A(p, t, q) ==
   (t.base = "br" /\ p.br.exists /\ p.br.finalizer /\ (~q.br.exists \/ ~q.br.finalizer))
@@ -462,7 +462,8 @@ C18br(p, t, q) ==
   => (p.wl.exists => ~p.wl.ctrl)
 
 C18b(s) ==
-  (s.ghost.created /\ ~s.ro.exists /\ (s.user.rev >= 2 \/ s.user.rolledBack)) => (Residue(s) \subseteq {"canarySvc", "canaryIng", "batchRelease"} /\ s.ghost.origOk)
+  (s.ghost.created /\ ~s.ro.exists /\ (s.user.rev >= 2 \/ s.user.rolledBack)) => (Residue(s) \subseteq {"canarySvc", "canaryIng", "batchRelease"} /\ (s.tr.used \/ s.ghost.origOk))
+  \* with a stand-alone TrafficRouting object the routes are that object's own: C18tr / C05tr
   \* objects owned through ownerReferences are collected by the garbage collector (env.gc); everything else must be clean
 
 \* the stand-alone TrafficRouting object: its own finalizer goes (or the object vanishes) only when the routes it
